@@ -190,11 +190,11 @@ From DG Require Import ThriftWireProofs T2JBytes T2JBytesProofs.
    returns the canonical text of the spec tree and exactly r, or fails when the spec has no text — for every choice fd of
    the lexeme written for a finite double (check 304 runs the walk with a marker for fd) *)
 Theorem C03_t2j_walk_refines_spec_gen : forall fd o v d n r,
-  o_value_mapping o = false -> o_write_default o = false -> o_write_required o = false ->
+  o_write_default o = false -> o_write_required o = false ->
   wf v = true -> conforms v d = true -> desc_wf d = true -> (depth v <= n)%nat -> (depth v <= max_skip_depth)%nat ->
   t2j_walk_gen fd o n d (encode v ++ r) =
-  match spec_text_fd fd (json_of o d v) with Some txt => Some (txt, r) | None => None end.
-Proof. intros fd o v d n r Hvm Hwd Hwr. exact (walk_refines fd o Hvm Hwd Hwr v d n r). Qed.
+  match spec_text_p fd (json_of o d v) with Some txt => Some (txt, r) | None => None end.
+Proof. intros fd o v d n r Hwd Hwr. exact (walk_refines fd o Hwd Hwr v d n r). Qed.
 Print Assumptions C03_t2j_walk_refines_spec_gen.
 
 (* with the spec's lexeme (the exact decimal of the bits): the text is json_print (to_json e), the printer of C03_expected_tree_parses *)
@@ -228,15 +228,20 @@ Proof.
 Qed.
 Print Assumptions C03_t2j_walk_refines_specw.
 
-(* the same for every double lexeme function whose lexemes need no escaping between quotes (needed only under value mapping,
-   where a js_conv double is printed as a JSON string) *)
+(* the same for EVERY double lexeme function fd, with the direct printer jexp_print of model/T2JBytes.v (a quoted js_conv
+   double is the lexeme between quotes; check 304 runs the walk with a marker for fd); with escape-free lexemes jexp_print is
+   the canonical print of the JSON AST *)
 Theorem C03_t2j_walk_refines_specw_gen : forall fd o v d n r,
-  (o_value_mapping o = true -> forall b, forallb plain (fd b) = true) ->
   wf v = true -> conforms v d = true -> desc_wf d = true -> (depth v <= n)%nat -> (depth v <= max_skip_depth)%nat ->
   t2j_walk_gen fd o n d (encode v ++ r) =
-  match spec_text_fd fd (json_ofw o d v) with Some txt => Some (txt, r) | None => None end.
-Proof. intros fd o v d n r Hfd. exact (walk_refines_w fd o Hfd v d n r). Qed.
+  match spec_text_p fd (json_ofw o d v) with Some txt => Some (txt, r) | None => None end.
+Proof. intros fd o v d n r. exact (walk_refines_w fd o v d n r). Qed.
 Print Assumptions C03_t2j_walk_refines_specw_gen.
+
+Theorem C03_jexp_print_is_canonical : forall fd, (forall b, forallb plain (fd b) = true) ->
+  forall e, jexp_print fd e = json_print (to_json_fd fd e).
+Proof. exact jexp_print_json. Qed.
+Print Assumptions C03_jexp_print_is_canonical.
 
 (* the root (do): with thrift base extraction too — a response-base field is skipped and yields no member — the text is that
    of the root spec t2j_specw (ConvertException off) *)
@@ -321,21 +326,19 @@ Print Assumptions C03_text_agrees_plain.
 From DG Require Import T2JBytesTok.
 
 Theorem C03_check304_sound : forall o v d n r m r' out,
-  o_value_mapping o = false -> o_write_default o = false -> o_write_required o = false ->
   wf v = true -> conforms v d = true -> desc_wf d = true -> desc_ok d = true ->
   (depth v <= n)%nat -> (depth v <= max_skip_depth)%nat ->
   t2j_walk_gen fd_mark o n d (encode v ++ r) = Some (m, r') ->
   text_agrees (S (length m)) m out = true ->
-  exists e, json_of o d v = TOk e /\ jexp_finite e = true /\ agrees (jtoks e) out.
+  exists e, json_ofw o d v = TOk e /\ jexp_finite e = true /\ agrees (jtoks e) out.
 Proof. exact check304_sound. Qed.
 Print Assumptions C03_check304_sound.
 
 Theorem C03_walk_text_tokens : forall o v d n r txt r',
-  o_value_mapping o = false -> o_write_default o = false -> o_write_required o = false ->
   wf v = true -> conforms v d = true -> desc_wf d = true ->
   (depth v <= n)%nat -> (depth v <= max_skip_depth)%nat ->
   t2j_walk n o d (encode v ++ r) = Some (txt, r') ->
-  exists e, json_of o d v = TOk e /\ txt = render f64_exact_lexeme (jtoks e).
+  exists e, json_ofw o d v = TOk e /\ txt = render f64_exact_lexeme (jtoks e).
 Proof. exact walk_text_tokens. Qed.
 Print Assumptions C03_walk_text_tokens.
 
@@ -396,3 +399,67 @@ Example C03_walk_example_w :
    t2j_walk_root f64_exact_lexeme (2 ^ 6 + 2 ^ 8) 3 d (encode v) = Some ([123; 34; 97; 34; 58; 53; 125], []) /\
    t2j_walk_root f64_exact_lexeme (2 ^ 6) 3 d (encode v) = Some ([123; 34; 66; 34; 58; 123; 125; 44; 34; 97; 34; 58; 53; 125], [])).
 Proof. vm_compute. repeat split; reflexivity. Qed.
+
+(* ---- COMPLETENESS of check 304's comparison: no false alarm.  Every text that is the token sequence with each double spelled
+   by ANY JSON number lexeme denoting its bits (agrees) is accepted, when a double is followed by a byte that cannot continue
+   a number; the token sequence of every tree has that property; hence whatever spells the spec tree is accepted against the
+   marker walk, for every option ---- *)
+Theorem C03_text_agrees_complete : forall ts i, agrees ts i -> Forall tok_ok ts -> sep_ok ts ->
+  forall fuel, (length (render fd_mark ts) < fuel)%nat -> text_agrees fuel (render fd_mark ts) i = true.
+Proof. exact text_agrees_complete. Qed.
+Print Assumptions C03_text_agrees_complete.
+
+Theorem C03_tree_tokens_separated : forall e, sep_ok (jtoks e).
+Proof. exact jtoks_sep_ok. Qed.
+Print Assumptions C03_tree_tokens_separated.
+
+Theorem C03_check304_complete : forall o v d n r m r' out e,
+  wf v = true -> conforms v d = true -> desc_wf d = true -> desc_ok d = true ->
+  (depth v <= n)%nat -> (depth v <= max_skip_depth)%nat ->
+  t2j_walk_gen fd_mark o n d (encode v ++ r) = Some (m, r') ->
+  json_ofw o d v = TOk e -> agrees (jtoks e) out ->
+  text_agrees (S (length m)) m out = true.
+Proof. exact check304_complete. Qed.
+Print Assumptions C03_check304_complete.
+
+(* the direct printer is the token sequence, for every lexeme function *)
+Theorem C03_jexp_print_tokens : forall fd e, jexp_print fd e = render fd (jtoks e).
+Proof. exact print_toks. Qed.
+Print Assumptions C03_jexp_print_tokens.
+
+(* ---- ConvertException at the root (PARTIAL): the byte loop of do under ConvertException computes the text of xwalk — the
+   same loop over the decoded fields, values by the spec functions (json_ofw / jsconv), unset scan by the bitmap: the
+   members, or the first exception field's tree followed by what handleUnsets appends (returned as the error), or an error.
+   Not proved: that xwalk is T2JUnset.root_walkw's TExc branch (check 301 compares the implementation with that spec). ---- *)
+Theorem C03_t2j_walk_rootx_refines_partial : forall fd o fs vs n r, o_convert_exception o = true ->
+  wf (VStruct vs) = true -> conforms (VStruct vs) (DStruct fs) = true -> desc_wf (DStruct fs) = true -> base_is_struct (DStruct fs) ->
+  (depth (VStruct vs) <= S n)%nat -> (depth (VStruct vs) <= max_skip_depth)%nat ->
+  t2j_walk_rootx fd o (S n) (DStruct fs) (encode (VStruct vs) ++ r) =
+  match xwalk o (root_bx o) fs vs (bm_init fs) with
+  | XObj ms => Some (WText (jexp_print fd (EObj ms)))
+  | XExc e us => Some (WExc (jexp_print fd e ++ obj_mems fd true us))
+  | XErr => None
+  end.
+Proof. exact walk_rootx_refines_partial. Qed.
+Print Assumptions C03_t2j_walk_rootx_refines_partial.
+
+Theorem C03_t2j_walk_rootx_plain : forall fd o n d bs, o_convert_exception o = false ->
+  t2j_walk_rootx fd o n d bs = match t2j_walk_root fd o n d bs with Some (t, _) => Some (WText t) | None => None end.
+Proof. exact walk_rootx_plain. Qed.
+Print Assumptions C03_t2j_walk_rootx_plain.
+
+(* the root walk for every lexeme function (thrift base; ConvertException off) *)
+Theorem C03_t2j_walk_root_refines_specw_gen : forall fd o v d n r, o_convert_exception o = false ->
+  wf v = true -> conforms v d = true -> desc_wf d = true -> base_is_struct d ->
+  (depth v <= n)%nat -> (depth v <= max_skip_depth)%nat ->
+  t2j_walk_root fd o n d (encode v ++ r) =
+  match spec_text_p fd (fst (t2j_specw o d v)) with Some txt => Some (txt, r) | None => None end.
+Proof. exact walk_root_refines. Qed.
+Print Assumptions C03_t2j_walk_root_refines_specw_gen.
+
+Example C03_walk_example_x :
+  (* ConvertException (bit 7): field 1 (d) is an exception: its JSON is the error text; with only the success field 0: a document *)
+  t2j_walk_rootx f64_exact_lexeme (2 ^ 7) 3 ex_desc (encode (VStruct [(1, VDouble 0); (2, VString [])])) = Some (WExc [48]) /\
+  t2j_walk_rootx f64_exact_lexeme (2 ^ 7) 3 (DStruct [({| f_id := 0; f_key := [97]; f_req := 0; f_flags := 0 |}, DScalar T_I32)])
+                 (encode (VStruct [(0, VI32 5)])) = Some (WText [123; 34; 97; 34; 58; 53; 125]).
+Proof. vm_compute. split; reflexivity. Qed.
